@@ -345,9 +345,24 @@ func ruleA18Payload(r *Run, p *Prog, encFns []*ssa.Function, prefix *ssa.Functio
 				if sc == nil || sc.Signature.Recv() == nil || !isAppenderSigRecv(sc.Signature) || len(c.Call.Args) < 3 {
 					return
 				}
+				// the element of this iteration, possibly scaled/converted before it is appended
+				// (int64(d/unit), float64(d)/float64(unit))
 				elem := c.Call.Args[2]
-				if cv, isCv := elem.(*ssa.Convert); isCv {
-					elem = cv.X
+				for depth := 0; depth < 6; depth++ {
+					switch x := elem.(type) {
+					case *ssa.Convert:
+						elem = x.X
+						continue
+					case *ssa.ChangeType:
+						elem = x.X
+						continue
+					case *ssa.BinOp:
+						if x.Op == token.QUO || x.Op == token.MUL {
+							elem = x.X
+							continue
+						}
+					}
+					break
 				}
 				ld, isLd := elem.(*ssa.UnOp)
 				if !isLd {
